@@ -33,12 +33,13 @@ ARITY_H = H('arity', 'oracle_arity', 8000, 400000, spec_level=True, nontrivial=l
 
 CHECKS = {
     'C01': dict(
-        spec=['FpVerif.Spec.C01', 'FpVerif.Spec.C01Inst', 'FpVerif.Spec.C01T'],
-        harnesses=MONAD_H + [TRYOPT_H, ARITY_H, H('iter', 'oracle_iter', 4000, 400000, spec_level=True, extra=dict(quick=['-prop', 'C12'], thorough=['-prop', 'C12']))],
+        spec=['FpVerif.Spec.C01', 'FpVerif.Spec.C01Inst', 'FpVerif.Spec.C01T', 'FpVerif.Spec.C16'],
+        harnesses=MONAD_H + [TRYOPT_H, ARITY_H, H('iter', 'oracle_iter', 4000, 400000, spec_level=True, extra=dict(quick=['-prop', 'C12'], thorough=['-prop', 'C12'])),
+                             H('eval', 'oracle_eval', 2000, 100000, spec_level=True, extra=dict(quick=['-deep', '20000'], thorough=['-deep', '200000']))],
         level='proof',
         modelled='X_monad.go + X_traverse.go of option/try/either/statet (one generic model of the generator template, '
                  'instantiated four times; every arity through operand lists); FlatMap/Pure/FoldM and the hand-written cores of '
-                 'try_op.go, option_op.go, either_op.go; methods of fp.Try/fp.Option/fp.Either. Iterator/List monads: C12; lazy.Eval: C16. '
+                 'try_op.go, option_op.go, either_op.go; methods of fp.Try/fp.Option/fp.Either. Iterator/List monads: C12 harness; lazy.Eval monad (lazy.Map/FlatMap/Map2, monad laws and faithfulness theorems of Spec/C16): eval harness. '
                  'MonadChainN/ApplicativeFunctorN builders: model and theorems in Spec/C14 (chain_def, applicative_def), exercised here through the arity harness. '
                  'try.OptionT / try.SeqT transformer functions (try_optiont.go, try_seqt.go: core six + the Transform family) in Model/TryOpt.lean (TryT), Spec/C01T. '
                  'Iterator and lazy List monads through the C12 harness. Not modelled: fn0/fn1.',
@@ -48,7 +49,9 @@ CHECKS = {
     ),
     'C02': dict(
         spec=['FpVerif.Spec.C02'],
-        harnesses=MONAD_H + [TRYOPT_C02_H, ARITY_H, H('statet', 'oracle_statet', 3000, 100000, spec_level=True)],
+        harnesses=MONAD_H + [TRYOPT_C02_H, ARITY_H, H('statet', 'oracle_statet', 3000, 100000, spec_level=True),
+                             # future.Apply/Apply2 panic capture, future builders' suppliers after a failure
+                             H('future', 'oracle_future', 2000, 100000, spec_level=True)],
         level='proof',
         modelled='as C01; in addition try.Of/Call/CallUnit (recover -> tryCatch), Recover*/Or*/OrElse* of fp.Try/fp.Option/fp.StateT. '
                  'future.Apply/Apply2: C06.',
@@ -109,7 +112,7 @@ CHECKS = {
                      'the stress part (real goroutines, no hooks) is not reproducible from the seed'],
     ),
     'C06': dict(
-        spec=['FpVerif.Spec.C06', 'FpVerif.Spec.C06Sound', 'FpVerif.Spec.C06Live'],
+        spec=['FpVerif.Spec.C06', 'FpVerif.Spec.C06Sound', 'FpVerif.Spec.C06Live', 'FpVerif.Spec.C06Chain'],
         harnesses=[H('future', 'oracle_future', 3000, 150000, spec_level=True)],
         level='proof',
         level_note='trusted: Lean kernel (propext/Classical.choice/Quot.sound only); model fidelity checked by correspondence (statuses of every future, '
@@ -120,6 +123,8 @@ CHECKS = {
                    'promise holds exactly what its first-order expression evaluates to over the statuses in that same state (never earlier, never different). '
                    'Spec/C06Live.lean: completeness — in every reachable state with an empty task queue the status of EVERY promise equals the three-valued '
                    'evaluation of its expression (exact_at_quiescence, built_future_exact), via a liveness invariant preserved by every event. '
+                   'Spec/C06Chain.lean: every builder method keeps the invariant at any moment of any schedule; chain_sound_every_schedule / '
+                   'applicative_sound_every_schedule; supplier_task_sound (a supplier runs only with the successful values of all earlier positions). '
                    'Not proved: that the queue always drains (termination of callback chains), absence of failed Complete attempts on derived promises; '
                    'futures of futures (Flatten/LiftM) are outside the first-order fragment of the theorems — covered by the correspondence and direct checks.',
         modelled='future.go (Promise cell, OnComplete, Future methods Map/FlatMap/Recover*/Or/OrFuture/Failed), future/future_op.go (Successful, Failed, '
@@ -158,14 +163,20 @@ CHECKS = {
                      'user callbacks do not panic in the theorems'],
     ),
     'C14': dict(
-        spec=['FpVerif.Spec.C14'],
+        spec=['FpVerif.Spec.C14', 'FpVerif.Spec.C14Fut'],
         harnesses=[H('arity', 'oracle_arity', 16000, 1600000, spec_level=True,
                      nontrivial=lambda op, impl: op.count(' ') >= 3),
                    # the eq/ord/hash/monoid/clone TupleN families live in the typeclass machinery (C09-C11, C18)
                    H('tc', 'oracle_tc', 1500, 100000, spec_level=True),
-                   H('clone', 'oracle_clone', 2000, 100000, spec_level=True)],
+                   H('clone', 'oracle_clone', 2000, 100000, spec_level=True),
+                   # future ChainN/ApplicativeN builders and the func_gen.go families: derived programs over the network model of C06
+                   H('future', 'oracle_future', 3000, 150000, spec_level=True)],
         level='proof',
-        modelled='every arity-indexed generated family outside the monad family (C01) and the eq/ord/hash/monoid/clone/future '
+        modelled='future ChainN/MonadChainN, ApplicativeN/ApplicativeFunctorN (every method at every receiver arity 1..9, in one go or staged), LiftAN, '
+                 'LiftMN, FlapN, MethodN, FlatMethodN, FuncN, UnitN, ComposeN, Zip/Zip3 - each modelled ONCE, arity-generically, as derived programs over '
+                 'the network model of C06 (Model/FutureChain.lean); theorems for all N in Spec/C14Fut.lean (denotation = do-notation reading over fp.Try; '
+                 'construction runs no user code). '
+                 'Every arity-indexed generated family outside the monad family (C01) and the eq/ord/hash/monoid/clone '
                  'families: TupleN/LabelledN accessors + String, fp FuncN.ApplyFirstN/ApplyLastN/Widen, ComposeN, IdN, Flip, Flip2; '
                  'as.FuncN/SupplierN/CurriedN/UnTupledN/Tupled2/TupleN/LabelledN/HListN/HListNLabelled; curried.FuncN/RevertN/FlipN/'
                  'FlipApplyN/SlipLN/ComposeN; hlist.OfN/CaseN/LiftN/RiftN/ReverseN; product.TupleN/TupleFromHListN/LabelledFromHListN/'
